@@ -340,6 +340,8 @@ pub fn run_batch<S: Scenario>(scn: &Arc<S>, cfg: &CheckCfg, tag: &str, budget: D
                         current: Option<(u64, S::P)>,
                     }
                     let w: std::rc::Rc<std::cell::RefCell<W<S>>> = std::rc::Rc::new(std::cell::RefCell::new(W { stats: BatchStats::new(), current: None }));
+                    let announce = std::env::var_os("VERIF_ANNOUNCE").is_some();
+                    let only_index: Option<u64> = std::env::var("VERIF_ONLY_INDEX").ok().and_then(|s| s.parse().ok());
                     // ---- job source
                     let next_job = {
                         let (scn, counter, stop, tag) = (Arc::clone(&scn), Arc::clone(&counter), Arc::clone(&stop), tag.clone());
@@ -355,8 +357,21 @@ pub fn run_batch<S: Scenario>(scn: &Arc<S>, cfg: &CheckCfg, tag: &str, budget: D
                                 stop.store(true, Ordering::Relaxed);
                                 return None;
                             }
+                            let idx = match only_index {
+                                Some(only) => {
+                                    if idx > 0 {
+                                        return None;
+                                    }
+                                    only
+                                }
+                                None => idx,
+                            };
                             let mut rng = Rng::new(run_seed(verif_seed, &tag, idx));
-                            Some((idx, scn.generate(&mut rng, tier)))
+                            let p = scn.generate(&mut rng, tier);
+                            if announce {
+                                eprintln!("BEGIN {} {}", idx, serde_json::to_string(&p).unwrap_or_default());
+                            }
+                            Some((idx, p))
                         }
                     };
                     // ---- outcome sink
@@ -858,6 +873,7 @@ impl<S: Scenario> PartRunner for Part<S> {
             Tier::Quick => 48,
             Tier::Thorough => 400,
         };
+        let det_samples = if std::env::var_os("VERIF_SKIP_DET").is_some() { 0 } else { det_samples };
         let determinism_checked = match determinism_check(scn, cfg, &tag, det_samples) {
             Ok(n) => n,
             Err(e) => {
